@@ -21,6 +21,7 @@ Python only converts (rational <-> float/int array, float -> scaled integer); ev
 import math
 import os
 import random
+import struct
 from fractions import Fraction
 
 import numpy as np
@@ -169,11 +170,12 @@ def build_eval_object(c):
     from pydl.pydlutils.bspline import bspline
     bk = [fl(q) for q in c['bk']]
     nord = int(c['nord'])
+    kform = c.get('kform', 'f8')          # double or single precision breakpoint array
     try:
-        obj = bspline(np.array([bk[0], bk[-1]], dtype='d'), nord=nord, bkpt=np.array(bk, dtype='d'),
+        obj = bspline(np.array([bk[0], bk[-1]], dtype='d'), nord=nord, bkpt=typed(c['bk'], kform),
                       bkspread=fl(c['spread']))
         if c['how'] == 'direct':
-            t = np.array([fl(q) for q in c['t']], dtype='d')
+            t = typed(c['t'], kform)
             obj.breakpoints = t
             obj.mask = np.ones(t.shape, dtype='bool')
             obj.coeff = np.zeros((t.size - nord,), dtype='d')
@@ -371,6 +373,129 @@ class Reporter:
             print('C08 violations of class %s: %d%s' % (key, n, (' - ' + FINDING_WHAT[key]) if key in FINDING_WHAT else ''))
 
 
+# ---------------------------------------------------------------- points within a few ulp of the ends ---
+ENDS_W = 2**29 + 2**24          # half width (in double-precision ordinals) of the window around each end:
+ENDS_L = ENDS_W + 2**20         # a bit more than one single-precision ulp; ends sit at -ENDS_L and +ENDS_L
+HEXINF = float('inf')
+
+
+def ord64(v):
+    """the position of a double among all doubles (consecutive doubles differ by one; -0.0 and 0.0 share 0)"""
+    b = struct.unpack('<q', struct.pack('<d', float(v)))[0]
+    return b if b >= 0 else -(b & 0x7fffffffffffffff)
+
+
+def ends_coord(v, lo, hi):
+    """order-preserving abstraction of a double relative to the two end breakpoints (see Trace_BSplineBasis)"""
+    dl, dh = ord64(v) - ord64(lo), ord64(v) - ord64(hi)
+    if abs(dl) <= ENDS_W:
+        return -ENDS_L + dl
+    if abs(dh) <= ENDS_W:
+        return ENDS_L + dh
+    if dl < 0:
+        return -(ENDS_L + ENDS_W + 1)
+    if dh > 0:
+        return ENDS_L + ENDS_W + 1
+    return 0
+
+
+def hexes(a):
+    return [float(v).hex() for v in a]
+
+
+def random_ends_call(rng):
+    """A constructor call on arbitrary (non-dyadic) binary floats, any breakpoint option, double or single
+    precision arrays.  Everything is kept as hex strings so that the call can be replayed bit for bit."""
+    n = rng.randint(6, 60)
+    a = rng.choice([0.1, -2.7, 1.0 / 3, 5.3, 100.7, 1e-3, -0.6, 17.0]) * rng.choice([1.0, 1.0, rng.uniform(0.5, 2.0)])
+    b = a + rng.uniform(0.5, 9.0) * max(1.0, abs(a) / 10)
+    style = rng.choice(['linspace', 'linspace', 'uniform', 'unsorted'])
+    if style == 'linspace':
+        data = [a + (b - a) * k / (n - 1) for k in range(n)]
+    else:
+        data = sorted([a, b] + [rng.uniform(a, b) for _ in range(n - 2)])
+        if style == 'unsorted':
+            rng.shuffle(data)
+    dform = rng.choice(['f8', 'f8', 'f8', 'f4', 'f8strided'])
+    if dform == 'f4':
+        data = [float(np.float32(v)) for v in data]
+    lo, hi = min(data), max(data)
+    opt = rng.choice(['bkpt', 'placed', 'bkspace', 'nbkpts', 'everyn', 'everyn'])
+    aform = 'f8'
+    if opt == 'nbkpts':
+        arg = rng.randint(2, 9)
+    elif opt == 'everyn':
+        arg = rng.randint(1, max(1, n // 2))
+    elif opt == 'bkspace':
+        arg = float((hi - lo) / rng.uniform(1.5, 8.0)).hex()
+    else:
+        k = rng.randint(2, 6)
+        inner = sorted(rng.uniform(lo, hi) for _ in range(k))
+        if opt == 'bkpt':
+            inner = sorted(set([rng.choice([lo, lo, lo - 0.3, lo + 0.05])] + inner + [rng.choice([hi, hi, hi + 0.4, hi - 0.05])]))
+        aform = rng.choice(['f8', 'f4', 'f4', 'f8readonly'])
+        if aform == 'f4':
+            inner = sorted(set(float(np.float32(v)) for v in inner))
+        arg = hexes(inner)
+    return {'data': hexes(data), 'dform': dform, 'nord': rng.randint(1, 6),
+            'spread': float(rng.choice([1.0, 1.0, 0.5, 2.0])).hex(), 'opt': opt, 'arg': arg, 'aform': aform,
+            'xform': rng.choice(['f8', 'f8', 'f8', 'f4', 'f8strided', 'f8readonly', 'f8swap']),
+            'seed': rng.randrange(10**6)}
+
+
+def record_ends(call):
+    """Execute the call, probe the validity mask within a few ulp (double and single precision) of the first and
+    last breakpoint the object holds, return the trace record (numbers abstracted by ends_coord)."""
+    from pydl.pydlutils.bspline import bspline
+    rng = random.Random(call['seed'])
+    data = [float.fromhex(h) for h in call['data']]
+    nord = call['nord']
+    opt = call['opt']
+    rec = {'kind': 'ends', 'nord': nord, 'option': opt, 'call': call, 'lo': -ENDS_L, 'hi': ENDS_L, 'xs': [],
+           'held': '', 'points': []}
+    try:
+        if opt in ('bkpt', 'placed'):
+            kw = {opt: typed([Fraction(float.fromhex(h)) for h in call['arg']], call['aform'])}
+        elif opt == 'bkspace':
+            kw = {opt: float.fromhex(call['arg'])}
+        else:
+            kw = {opt: int(call['arg'])}
+        obj = bspline(typed([Fraction(v) for v in data], call['dform']), nord=nord,
+                      bkspread=float.fromhex(call['spread']), **kw)
+        kn = np.asarray(obj.breakpoints)
+        rec['held'] = str(kn.dtype)
+        lo, hi = float(kn[nord - 1]), float(kn[kn.size - nord])
+        if not (ord64(hi) - ord64(lo) > 2 * ENDS_W + 2):
+            return None                       # no room for the two windows (degenerate range): not a probe case
+        pts = [min(data), max(data), 0.5 * (lo + hi), lo - 1.0, hi + 1.0] + rng.sample(data, min(4, len(data)))
+        for e in (lo, hi):
+            d, u = e, e
+            for _ in range(3):
+                d, u = float(np.nextafter(d, -HEXINF)), float(np.nextafter(u, HEXINF))
+                pts += [d, u]
+            f = np.float32(e)
+            pts += [e, float(f), float(np.nextafter(f, np.float32(-HEXINF))), float(np.nextafter(f, np.float32(HEXINF)))]
+            ulp = abs(float(np.spacing(f)))
+            pts += [e + s * q * ulp for s in (-1, 1) for q in (0.125, 0.25, 0.49, 0.51, 0.75, 1.0, 3.0)]
+        if call['xform'] == 'f4':
+            pts = [float(np.float32(v)) for v in pts]
+        pts = [v for v in pts if math.isfinite(v)]
+        rng.shuffle(pts)
+        x = typed([Fraction(v) for v in pts], call['xform'])
+        obj.coeff = np.array([rng.uniform(-1, 1) for _ in range(np.asarray(obj.coeff).size)], dtype='d')
+        yy, mask = obj.value(x)
+        mask = np.asarray(mask)
+        if mask.shape != x.shape:
+            raise ValueError('mask of shape %r for %d points' % (mask.shape, x.size))
+        rec['xs'] = [ends_coord(v, lo, hi) for v in pts]
+        rec['points'] = hexes(pts)
+        rec['ends'] = [lo.hex(), hi.hex()]
+        rec['obs'] = {'err': False, 'exc': '', 'mask': [bool(m) for m in mask]}
+    except Exception as ex:
+        rec['obs'] = {'err': True, 'exc': '%s: %s' % (type(ex).__name__, str(ex)[:120]), 'mask': []}
+    return rec
+
+
 def finding_of(text):
     for fid in FINDING_WHAT:
         if text.startswith(fid):
@@ -402,6 +527,17 @@ def run_eval_case(c, exp):
         allobs.append(obs)
         for text, tag in compare_eval(exp['pts'], idx, int(c['nord']), obs, len(c['cs']), order['single']):
             probs.append(('order %d (%d points as %s): %s' % (o, len(idx), order['form'], text), tag))
+    if c.get('E'):
+        # probes a hair beside the ends of the range: only the validity mask is specified
+        try:
+            obj.coeff = np.array(c['cs'][0], dtype='d')
+            mask = [bool(m) for m in obj.value(typed(c['E'], 'f8'))[1]]
+        except Exception as ex:
+            mask = '%s: %s' % (type(ex).__name__, str(ex)[:100])
+        if mask != [bool(m) for m in exp['ends']]:
+            probs.append(('end probes %s (knots as %s, held as %s): mask %s, specified %s' % (
+                [str(fr(q)) for q in c['E']], c.get('kform', 'f8'), np.asarray(obj.breakpoints).dtype, mask,
+                [bool(m) for m in exp['ends']]), None))
     return probs, allobs, obj
 
 
@@ -543,6 +679,21 @@ def run(ctx):
         recs.append(rec)
         meta.append(('eval', prob, obs))
         ctx.nontriv(('re', repr(rec['t']), rec['nord'], repr(rec['xs'])))
+    nends = 250 if ctx.quick else 2500
+    held = {}
+    while sum(1 for m in meta if m[0] == 'ends') < nends:
+        call = random_ends_call(rng)
+        rec = record_ends(call)
+        if rec is None:
+            continue
+        recs.append(rec)
+        meta.append(('ends', call, None))
+        held[(call['opt'], rec['held'])] = held.get((call['opt'], rec['held']), 0) + 1
+        ctx.nontriv(('ends', repr(call)))
+    ctx.cov['parts']['recorded-end-probes'] = {'%s/%s' % k: v for k, v in sorted(held.items())}
+    if not any(k[1] == 'float32' for k in held) or not any(k[1] == 'float64' for k in held) \
+            or set(k[0] for k in held) != {'bkpt', 'placed', 'bkspace', 'nbkpts', 'everyn'}:
+        raise core.MachineryError('end probes did not meet every option and both knot precisions: %s' % held)
     _tick(ctx, 'random calls recorded')
     # one TLC run judges the knots of every object constructed during the replay (laws of the statement)
     # and the recorded random calls
@@ -556,11 +707,12 @@ def run(ctx):
     _tick(ctx, 'trace judged')
     ctx.evaluated(nk, 'recorded-constructions')
     ctx.evaluated(sum(len(m[1]['xs']) * len(m[1]['cs']) for m in meta if m[0] == 'eval'), 'recorded-values')
+    ctx.evaluated(sum(len(r['xs']) for r in recs if r['kind'] == 'ends'), 'recorded-end-probe-points')
     ctx.validated(len(recs))
     kinds = set()
     accepted = []
     for k, (rec, (kind, what, obs), (why, out)) in enumerate(zip(recs, meta, res)):
-        kinds.add(rec.get('opt', 'eval'))
+        kinds.add(rec.get('opt', rec['kind']))
         if kind == 'eval' and not why and not rec['obs']['err']:
             # tighten: the floats against the exact outcome TLC computed for this record
             probs = compare_eval(out, list(range(len(rec['xs']))), rec['nord'], obs, len(rec['cs']),
@@ -574,11 +726,11 @@ def run(ctx):
                 kind, why, describe_record(rec)), 'mode': 'rec', 'record': rec, 'why': why}, finding=finding_of(why))
         else:
             accepted.append(k)
-    if kinds != {'bkpt', 'placed', 'bkspace', 'nbkpts', 'everyn', 'eval'}:
+    if kinds != {'bkpt', 'placed', 'bkspace', 'nbkpts', 'everyn', 'eval', 'ends'}:
         raise core.MachineryError('recorded calls did not cover every option kind: %s' % sorted(kinds))
     ctx.sample({'recorded_construction': describe_record(recs[0])})
     ctx.sample({'recorded_evaluation': describe_record(recs[nk]), 'observed_values': meta[nk][2]['vals'] if not meta[nk][2]['err'] else meta[nk][2]['err']})
-    xforms = set(r['xform'] for r in recs if r['kind'] == 'eval') | set(r['form'] for r in recs if r['kind'] == 'knots')
+    xforms = set(r['xform'] for r in recs if r['kind'] == 'eval') | set(r.get('form') for r in recs if r['kind'] == 'knots')
     if not set(FORMS) <= xforms:
         raise core.MachineryError('recorded calls did not use every form: %s' % sorted(xforms))
     # ---- binding self-test: falsified copies of accepted records must all be rejected by the same operators
@@ -606,7 +758,11 @@ def falsify(rng, records, outs, want):
         o = r2['obs']
         if o['err']:
             continue
-        if rec['kind'] == 'knots':
+        if rec['kind'] == 'ends':
+            mode = 'mask'
+            b = rng.randrange(len(o['mask']))
+            o['mask'][b] = not o['mask'][b]
+        elif rec['kind'] == 'knots':
             m = len(o['knots'])
             mode = rng.choice(['ncoef', 'decreasing', 'uncovered', 'moved'])
             if mode == 'ncoef':
@@ -648,7 +804,7 @@ def falsify(rng, records, outs, want):
                     o['rows'][s][rng.randrange(rec['nord'])] += 6 * VS
         kinds[rec['kind'] + ':' + mode] = kinds.get(rec['kind'] + ':' + mode, 0) + 1
         fals.append(r2)
-    if len(kinds) < 7:
+    if len(kinds) < 8:
         raise core.MachineryError('binding self-test exercised too few kinds of falsification: %s' % kinds)
     return fals
 
@@ -772,6 +928,19 @@ def record_evaluation(prob):
 
 
 def describe_record(rec):
+    if rec['kind'] == 'ends':
+        c = rec['call']
+        fx = lambda h: repr(float.fromhex(h))
+        arg = c['arg'] if isinstance(c['arg'], int) else (fx(c['arg']) if isinstance(c['arg'], str) else [fx(h) for h in c['arg']])
+        wrong = ''
+        if not rec['obs']['err'] and rec.get('points'):
+            lo, hi = [float.fromhex(h) for h in rec['ends']]
+            bad = [(float.fromhex(h), m) for h, m in zip(rec['points'], rec['obs']['mask'])
+                   if m != (lo <= float.fromhex(h) <= hi)]
+            wrong = '; range held [%r, %r] (%s); e.g. x=%r mask %s' % ((lo, hi, rec['held']) + bad[0]) if bad else ''
+        return 'bspline(x=%d %s points %s..%s, nord=%d, bkspread=%s, %s=%s as %s).value(%d points as %s)%s%s' % (
+            len(c['data']), c['dform'], fx(c['data'][0]), fx(c['data'][-1]), rec['nord'], fx(c['spread']), c['opt'], arg,
+            c['aform'], len(rec['xs']), c['xform'], wrong, (' raised ' + rec['obs']['exc']) if rec['obs']['err'] else '')
     if rec['kind'] == 'knots':
         arg = rec['arg']
         if rec['opt'] == 'bkspace':
@@ -815,7 +984,10 @@ def replay(ctx, case):
             ctx.violation(case, finding=fid or finding_of(why))
     elif mode == 'rec':
         rec = case['record']
-        if rec['kind'] == 'knots':
+        if rec['kind'] == 'ends':
+            new = record_ends(rec['call'])
+            obs = None
+        elif rec['kind'] == 'knots':
             call = (rec['data'], rec['nord'], rec['spread'], rec['opt'], rec['arg'])
             forms = (rec.get('form', 'f8'), rec.get('aform', 'f8'))
             obj, exc = construct(*call, *forms)
